@@ -131,6 +131,38 @@ fn case(cfg: &Config, alg: Algorithm, a: &[u32], b: &[u32], fam: &str, out: &mut
             }
         }
     }
+    // the same diff as users usually get it: through the capture functions, i.e. including the
+    // clean-up stage that slides and merges ops (it compares items too)
+    cmp_reset();
+    out.eval();
+    let r = guard(|| similar::capture_diff_slices(alg, &ca[..], &cb[..]));
+    let cmps = cmp_count();
+    if let Ok(ops) = r {
+        let d: u64 = ops
+            .iter()
+            .map(|op| match *op {
+                similar::DiffOp::Equal { .. } => 0,
+                similar::DiffOp::Delete { old_len, .. } => old_len as u64,
+                similar::DiffOp::Insert { new_len, .. } => new_len as u64,
+                similar::DiffOp::Replace { old_len, new_len, .. } => (old_len + new_len) as u64,
+            })
+            .sum();
+        let (n, m) = (a.len() as u64, b.len() as u64);
+        let bound = FACTOR.saturating_mul(n + m + 1).saturating_mul(d + 1);
+        let ratio = cmps as f64 / ((n + m + 1) * (d + 1)) as f64;
+        out.max(&format!("comparisons_per_(N+M+1)(D+1).{}.captured", alg_name(alg)), ratio);
+        out.max(&format!("comparisons_per_(N+M+1)(D+1).{}.captured.{}", alg_name(alg), fam), ratio);
+        out.count_n("comparisons_counted", cmps);
+        if cmps > bound {
+            out.violation(
+                "work.exceeds_bound",
+                format!(
+                    "capture_diff_slices (diff + clean-up of the ops): {} comparisons for N={} M={} D={} (size of the captured script): more than {}*(N+M+1)*(D+1) = {} | alg={} family={} old={} new={}",
+                    cmps, n, m, d, FACTOR, bound, alg_name(alg), fam, fmt_seq(a), fmt_seq(b)
+                ),
+            );
+        }
+    }
 }
 
 /// the same check for arbitrary hashable item types (value structure matters to hashing)
@@ -370,6 +402,103 @@ pub fn families() -> Vec<Box<dyn Family>> {
                 for alg in [Algorithm::Patience, Algorithm::Myers] {
                     out.nontrivial(&(alg_name(alg), n, idx));
                     case(cfg, alg, &a, &b, "unique_and_repeated", out);
+                }
+            },
+        ),
+        family(
+            "buffer_reuse",
+            "TWO diffs in a row on the SAME buffers (same address, same length, contents replaced in place): first two permutations of unique items (a large edit distance), then near-identical low-entropy contents (D <= 2): the second diff's work is judged on its own - nothing learnt about the first tenant of the memory may leak into it x {Patience, Myers}",
+            false,
+            1,
+            |cfg| if cfg.tiny { 2 } else { cfg.tier.pick(40, 200) },
+            |idx, cfg, out| {
+                let mut rng = Rng::for_case(cfg.seed, "c19.buffer_reuse", idx);
+                let n = if cfg.tiny { 16 } else { *rng.pick(&[500usize, 2000, 4000, 8000]) };
+                for alg in [Algorithm::Patience, Algorithm::Myers] {
+                    let mut ca: Vec<CountingElem> = (0..n as u32).map(|i| CountingElem(1_000_000 + i)).collect();
+                    let mut cb: Vec<CountingElem> = (0..n as u32).map(|i| CountingElem(1_000_000 + (i * 7919) % n as u32)).collect();
+                    // first tenant (kept cheap: Patience anchors / a bounded Myers run on 500 items)
+                    if alg == Algorithm::Patience || n <= 500 {
+                        let _ = guard(|| similar::capture_diff_slices(alg, &ca[..], &cb[..]));
+                    } else {
+                        let _ = guard(|| similar::capture_diff_slices(Algorithm::Patience, &ca[..], &cb[..]));
+                    }
+                    // second tenant, written in place
+                    let vals: Vec<u32> = (0..n).map(|i| if idx % 2 == 0 { (i % 5) as u32 } else { rng.below(40) as u32 }).collect();
+                    for (i, x) in vals.iter().enumerate() {
+                        ca[i] = CountingElem(*x);
+                        cb[i] = CountingElem(*x);
+                    }
+                    let edits = (idx / 2 % 3) as usize;
+                    for _ in 0..edits.min(1) {
+                        let i = rng.below(n);
+                        cb[i] = CountingElem(77_777);
+                    }
+                    let a: Vec<u32> = ca.iter().map(|x| x.0).collect();
+                    let b: Vec<u32> = cb.iter().map(|x| x.0).collect();
+                    let eq = |o: usize, nn: usize| a[o] == b[nn];
+                    let mut mon = TraceMon::new(&eq, 0..n, 0..n);
+                    cmp_reset();
+                    out.eval();
+                    let r = guard(|| similar::algorithms::diff_slices(alg, &mut mon, &ca[..], &cb[..]));
+                    let cmps = cmp_count();
+                    out.count("buffer_reuse_runs");
+                    out.nontrivial(&(alg_name(alg), n, idx));
+                    if r.is_ok() {
+                        mon.finish_check();
+                        if mon.failures.is_empty() {
+                            let d = mon.cost() as u64;
+                            let bound = FACTOR * (2 * n as u64 + 1) * (d + 1);
+                            out.max(&format!("comparisons_per_(N+M+1)(D+1).{}.buffer_reuse", alg_name(alg)), cmps as f64 / ((2 * n as u64 + 1) * (d + 1)) as f64);
+                            if cmps > bound {
+                                out.violation(
+                                    "work.exceeds_bound",
+                                    format!("{} comparisons for N=M={} D={}: more than {}*(N+M+1)*(D+1) = {} | alg={} second diff on buffers that held two permutations of {} unique items during the previous diff (same address and length) | old={} new={}", cmps, n, d, FACTOR, bound, alg_name(alg), n, fmt_seq(&a), fmt_seq(&b)),
+                                );
+                            }
+                        }
+                    }
+                }
+                out.sample(|| format!("N=M={} two tenants of the same buffers", n));
+            },
+        ),
+        family(
+            "edit_inside_long_run",
+            "a run of 1000 .. 50000 items that is constant or periodic (period 1..3) with ONE insertion / deletion of 1..5 items that repeat the run's own pattern, at the start, in the middle or at the end, between unique head and tail items: the diff itself is trivial (D <= 5) and sliding the edit along the run during clean-up must stay linear x {Myers, Patience} x {raw, captured}",
+            false,
+            1,
+            |cfg| if cfg.tiny { 2 } else { cfg.tier.pick(72, 360) },
+            |idx, cfg, out| {
+                let mut rng = Rng::for_case(cfg.seed, "c19.edit_in_run", idx);
+                let r = if cfg.tiny { 12 } else { *rng.pick(&[1000usize, 3000, 10_000, cfg.tier.pick(20_000, 50_000)]) };
+                let period = 1 + (idx % 3) as usize;
+                let l = 1 + rng.below(5);
+                let run = |k: usize| -> Vec<u32> { (0..k).map(|i| (i % period) as u32).collect() };
+                let mut a: Vec<u32> = vec![100, 101];
+                a.extend(run(r));
+                a.extend_from_slice(&[200, 201]);
+                let mut b = a.clone();
+                let at = 2 + match idx / 3 % 3 {
+                    0 => 0,
+                    1 => r / 2,
+                    _ => r,
+                };
+                let at = at - at % period.max(1) + 2 % period.max(1);
+                let at = at.min(2 + r);
+                if idx % 2 == 0 {
+                    // insert l items continuing the pattern
+                    let ins: Vec<u32> = (0..l).map(|i| ((at - 2 + i) % period) as u32).collect();
+                    b.splice(at..at, ins);
+                } else {
+                    let e = (at + l).min(2 + r);
+                    b.drain(at..e);
+                }
+                let (a, b) = if rng.chance(1, 2) { (a, b) } else { (b, a) };
+                out.sample(|| format!("run of {} items with period {}, edit of {} items at {}", r, period, l, at));
+                out.count("edit_inside_long_run_cases");
+                for alg in [Algorithm::Myers, Algorithm::Patience] {
+                    out.nontrivial(&(alg_name(alg), r, period, l, at, idx % 2));
+                    case(cfg, alg, &a, &b, "edit_inside_long_run", out);
                 }
             },
         ),
